@@ -46,6 +46,8 @@ func shapes(s uint32, thorough bool) []shape {
 	add(wtx([]uint32{1, 2, last}, 0, 0, "rollback"), keep)
 	add(wtx(nil, 0, 0, "lockonly"), keep)
 	add(prog.Op{Kind: "wtx", W: &pager.WTx{Frames: []uint32{1, 2}, Outcome: "commit", CloseAfter: true}}, keep)
+	add(prog.Op{Kind: "wtx", W: &pager.WTx{Frames: []uint32{2}, Outcome: "rollback", Torn: 1}}, keep)
+	add(prog.Op{Kind: "wtx", W: &pager.WTx{Frames: nil, Outcome: "rollback", Torn: 2}}, keep)
 	if s > 2 {
 		add(wtx([]uint32{1}, s-1, 0, "commit"), same(s-1))
 	}
